@@ -82,7 +82,9 @@ impl Mon {
             self.underlying_denom = Some(h.params.underlying_coin_denom.clone());
             self.last_undelegation_time = Some(w.time);
         }
-        self.owner_model = obs.owners.clone();
+        // every contract was instantiated by OWNER and nobody has been nominated yet: the model
+        // starts from the instantiating account, not from what the contracts report
+        self.owner_model = obs.owners.keys().map(|c| (c.clone(), (crate::chain::OWNER.to_string(), crate::chain::OWNER.to_string()))).collect();
         if let Some(d) = &obs.dispatcher {
             self.stsei_reward_denom = Some(d.stsei_reward_denom.clone());
         }
